@@ -138,6 +138,14 @@ def make_harness(cases):
                             r_.detach()
                     except Exception:  # noqa: BLE001
                         pass
+                # ... and rejected reads / writes that were given options (what they leave behind is not the next call's business)
+                from pyoak.serialize import SerializationOption as _SO
+
+                for reader, doc in ((VMany.from_json, js[: len(js) // 2]), (VMany.from_msgpck, b"\xc1\xff\x00"), (VMany.as_obj, {"__type": "VMany", "items": 5})):
+                    try:
+                        reader(doc, serialization_options={_SO.SKIP_CLASS: True, _SO.SORT_KEYS: True})
+                    except Exception:  # noqa: BLE001
+                        pass
                 NODE_REGISTRY.clear()
             if prehistory.startswith("sources-registered"):
                 # what a loader does: sources become known by type and uri (no text), other sources
